@@ -93,6 +93,15 @@ def instances(tier, seed):
     # the second stage created ON the first one (a grandchild of the Ocp)
     for when in ('after', 'edited-method'):
         add(kind='multistage', when=when, clones=False, nested=True)
+    # the integrator-based grid classes (DensityGrid, DenseEdgesGrid) with localized time variables and interval bounds: the loaded OCP must keep
+    # every option of the grid object (relational: the nodes themselves come from a numeric integrator and are constants on both sides)
+    for gi, g in enumerate([('density', {'localize_T': True, 'localize_t0': True}), ('dense_edges', {'localize_T': True}),
+                            ('density', {'localize_t0': True, 'min': Fr(1, 100), 'max': Fr(5)}), ('dense_edges', {'localize_T': True, 'localize_t0': True})]):
+        for mi, (method, intg) in enumerate((('MS', 'rk'), ('DC', None))):
+            s = copy.deepcopy(models()[-1])
+            s.note = 'integrator-based grid'
+            add(spec=fam.with_horizon(s, H[4] if gi % 2 == 0 else H[2]), cfg=Cfg(method, N=[3, 2][mi], M=1, intg=intg or 'rk', grid=g, degree=2, scheme='radau'),
+                when=['before', 'after', 'resave', 'load-edit'][(gi + 2 * mi) % 4])
     # seeded random problems (model, constraints, objective, guesses): the relational comparison needs no reference semantics
     from .. import randspec
     rr = random.Random(seed * 7919 + 1818)
